@@ -1076,6 +1076,44 @@ def r05_d(ctx):
     return rr
 
 
+def r05_f(ctx):
+    """an index into the raw content list is not measured in a filtered view"""
+    repo = ctx.repo
+    from .model import resolve_locals
+    rr = RuleResult('R05.f', 'the insert/remove methods of nodes and expressions never bound or compute an index with the '
+                    'length of a filtering view (`contents`, `children`, ...): the index addresses the raw content list, in '
+                    'which whitespace-only pieces count', floor=2)
+    views = ('contents', 'children', 'descendants', 'text')
+    node, texexpr = repo.need_cls('data.TexNode'), repo.need_cls('data.TexExpr')
+    for cls, mname in ((node, 'insert'), (texexpr, 'insert'), (node, 'append'), (texexpr, 'append'), (node, 'remove'),
+                       (texexpr, 'remove'), (node, 'replace'), (node, 'delete')):
+        fds = cls.methods.get(mname)
+        if not fds:
+            continue
+        fd = fds[-1]
+        bad = []
+        for n in ast.walk(fd.node):
+            if isinstance(n, ast.Call) and isinstance(n.func, ast.Name) and n.func.id == 'len' and len(n.args) == 1:
+                what = resolve_locals(fd.node, n.args[0])
+                # len(list(self.contents)) / len(self.contents) / len(self.expr.children) ...
+                inner = what
+                while isinstance(inner, ast.Call) and isinstance(inner.func, ast.Name) and inner.func.id in ('list', 'tuple') and inner.args:
+                    inner = inner.args[0]
+                if isinstance(inner, ast.Attribute) and inner.attr in views:
+                    # counts as an index computation when the method also writes the raw list by position
+                    bad.append(n)
+        writes = [x for x in ast.walk(fd.node) if isinstance(x, ast.Call) and isinstance(x.func, ast.Attribute)
+                  and x.func.attr in ('insert', 'pop') or isinstance(x, ast.Delete)]
+        ok = not (bad and writes)
+        rr.ob(ok, {'method': fd.qual, 'view_lengths_used': [norm(b)[:40] for b in bad]})
+        if not ok:
+            rr.fail(Finding('R05.f', 'data', fd.qual, bad[0], '%s measures its index with %s, the length of a filtered view, but '
+                            'the index addresses the raw content list: with whitespace-only pieces in the body a valid index '
+                            'is clamped or shifted and the material lands in the wrong place' % (fd.qual, norm(bad[0])),
+                            line=bad[0].lineno))
+    return rr
+
+
 def r05_c(ctx):
     repo = ctx.repo
     texexpr, _ = _expr_classes(repo)
